@@ -1491,8 +1491,9 @@ class SpaceManager(SharedSpaceOperations):
         if isinstance(value, Interface) and refmode == "relative":
             basevalue = value._impl.idstr
             for subspace in self._get_subs(space):
-                if name in subspace.own_refs:
-                    break
+                if (name in subspace.own_refs
+                        and subspace.own_refs[name].is_defined()):
+                    continue    # Overridden in the sub space
                 else:
                     subvalue = self._graph.get_relative(
                         subspace.idstr, space.idstr,
